@@ -292,6 +292,9 @@ pub fn run(toks: &[&str], fails: &mut Vec<(String, String)>, effective: &mut Opt
             if oracle.contains("c12") {
                 crate::train_tags::oracle_c12(&c, &t, &bytes, fails);
             }
+            if oracle.contains("c12sep") {
+                crate::train_tags::oracle_c12_separable(&c, &bytes, fails);
+            }
             format!("X{};M{}", t.examples, hex(&bytes))
         }
         (_, o) => {
